@@ -3,22 +3,26 @@
 
    <impl> is Model/Keys.v on the execution curve instance (BigZ).  <spec> is what property C07 prescribes,
    computed from the Prim references only (Base58Check of Prim/Base58.v over Prim/Sha256.v, SEC1 and
-   scalar multiplication of Prim/Secp256k1.v, RIPEMD-160 of Prim/Ripemd160.v) — "-" where the property is silent.
+   scalar multiplication of Prim/Secp256k1.v, RIPEMD-160 of Prim/Ripemd160.v).  Where the property does not
+   fix the value (version byte of a WIF other than 80) the column still says "an error or a value, never a
+   panic" (ERR~OK:*;*;*).
 
    ops (text = hex of the UTF-8 bytes, flag/compressed = 0|1, prefix = one byte in hex):
-     key.from_wif text                    -> key;compressed
-     key.to_wif key compressed            -> wif;reparsed key;reparsed flag
-     key.from_hex text / key.from_bytes b -> key;compressed
-     key.to_pub key compressed            -> pubkey bytes;is_compressed
+     key.from_wif text                    -> key (to_bytes);compressed;key (to_hex)
+     key.to_wif key compressed            -> wif;reparsed key;reparsed flag;reparsed to_hex
+     key.from_hex text / key.from_bytes b -> key;compressed;to_hex
+     key.to_pub key compressed            -> to_public_key (bytes;flag;to_hex);get_point;from_private_key (bytes;flag;to_hex)
+     key.random                           -> from_random behaves: distinct;valid;compressed;WIF round trip
      key.address key compressed prefix    -> pubkey;hash160;address string;locking script
-     pub.parse b                          -> bytes;is_compressed
-     pub.compress b / pub.decompress b    -> bytes;is_compressed
-     pub.address b                        -> prefix;hash;string
+     pub.parse b / pub.from_hex text      -> bytes;is_compressed;to_hex
+     pub.compress b / pub.decompress b    -> bytes;is_compressed;to_hex
+     pub.address b                        -> prefix;hash;string;hash hex;from_pubkey = to_p2pkh_address
      pub.unlock_own b prefix der flag     -> unlocking script of the key's own address under that prefix
-     addr.from_string text                -> prefix;hash;string
+     addr.from_string text                -> prefix;hash;string;hash hex
      addr.to_string prefix hash           -> string
-     addr.from_hash hash                  -> prefix;hash;string
-     addr.set_chain text prefix           -> prefix;hash;string
+     addr.from_hash hash                  -> prefix;hash;string;hash hex
+     addr.set_chain text prefix           -> prefix;hash;string;hash hex
+     addr.chain_named hash name           -> set_chain_params(ChainParams::name()): prefix;hash;string;hash hex;same as _impl
      addr.locking prefix hash             -> script bytes
      addr.unlocking prefix hash pub der flag -> script bytes *)
 From BSV Require Import Base.Hex.
@@ -35,22 +39,32 @@ Definition hash160_ref (m : bytes) : bytes := ripemd160 (sha256 m).
 Definition show_o {A} (f : A -> string) (r : outcome A) : string :=
   match r with Ok a => "OK:" +++ f a | Err => "ERR" | Panic => "PANIC" end.
 
-Definition show_key (k : privkey) : string := hex_of_bytes (priv_to_bytes k) +++ ";" +++ flag (sk_compressed k).
-Definition show_pub (pk : pubkey_t) : string := hex_of_bytes (pk_point pk) +++ ";" +++ flag (pk_compressed pk).
-Definition show_addr (a : address) : string :=
-  hex_of_bytes [a_prefix a] +++ ";" +++ hex_of_bytes (a_hash a) +++ ";" +++ addr_to_string a.
+(* PrivateKey::to_bytes ; flag ; PrivateKey::to_hex *)
+Definition show_key (k : privkey) : string :=
+  hex_of_bytes (priv_to_bytes k) +++ ";" +++ flag (sk_compressed k) +++ ";" +++ priv_to_hex k.
+(* PublicKey::to_bytes ; is_compressed ; to_hex *)
+Definition show_pub (pk : pubkey_t) : string :=
+  hex_of_bytes (pk_point pk) +++ ";" +++ flag (pk_compressed pk) +++ ";" +++ hex_of_bytes (pk_point pk).
 
 (* the driver finds the prefix by comparing the whole address (prefix, hash AND stored checksum) with
    from_pubkey_hash(hash).set_chain_params(p) for p = 0..255; the model reports the prefix when the stored
-   checksum is the one that construction gives, "xx" otherwise *)
+   checksum is the one that construction gives, "xx" otherwise.  Fields: prefix;to_pubkey_hash;to_string;to_pubkey_hash_hex *)
 Definition show_addr_checked (a : address) : string :=
   (if bytes_eqb (a_checksum a) (checksum4 (a_prefix a :: a_hash a)) then hex_of_bytes [a_prefix a] else "xx")
-  +++ ";" +++ hex_of_bytes (a_hash a) +++ ";" +++ addr_to_string a.
+  +++ ";" +++ hex_of_bytes (a_hash a) +++ ";" +++ addr_to_string a +++ ";" +++ hex_of_bytes (a_hash a).
 
 (* ------------------------------------------------------------------ *)
 (* specification side *)
 Definition spec_key_of_bytes (bs : bytes) : option Z :=
   if Nat.eqb (length bs) 32 then (let v := be_Z bs in if in_scalar v then Some v else None) else None.
+
+Definition spec_show_key (kb : bytes) (c : bool) : string :=
+  hex_of_bytes kb +++ ";" +++ flag c +++ ";" +++ hex_of_bytes kb.
+Definition spec_show_pub (enc : bytes) (c : bool) : string :=
+  hex_of_bytes enc +++ ";" +++ flag c +++ ";" +++ hex_of_bytes enc.
+Definition spec_addr_string (p : byte) (h : bytes) : string := b58check_encode sha256d_ref (p :: h).
+Definition spec_show_addr (p : byte) (h : bytes) : string :=
+  hex_of_bytes [p] +++ ";" +++ hex_of_bytes h +++ ";" +++ spec_addr_string p h +++ ";" +++ hex_of_bytes h.
 
 (* Base58Check payload -> (key, compressed); None = must be rejected *)
 Definition spec_wif_payload (payload : bytes) : option (bytes * bool) :=
@@ -72,17 +86,17 @@ Definition spec_from_wif (s : string) : string :=
           match spec_key_of_bytes kb with
           | None => "ERR"
           | Some _ =>
-              (* the property speaks about mainnet WIF (version 80); it is silent on other version bytes *)
-              if byte_eqb (hd x00 payload) x80 then "OK:" +++ hex_of_bytes kb +++ ";" +++ flag c else "-"
+              (* the property speaks about mainnet WIF (version 80); for other version bytes it only excludes a panic *)
+              if byte_eqb (hd x00 payload) x80 then "OK:" +++ spec_show_key kb c else "ERR~OK:*;*;*"
           end
       end
   end.
 
-Definition spec_addr_string (p : byte) (h : bytes) : string := b58check_encode sha256d_ref (p :: h).
-
 Definition spec_from_string (s : string) : string :=
   match b58check_decode sha256d_ref s with
-  | Some (p :: h) => if Nat.eqb (length h) 20 then "OK:" +++ hex_of_bytes [p] +++ ";" +++ hex_of_bytes h +++ ";" +++ s else "ERR"
+  | Some (p :: h) =>
+      if Nat.eqb (length h) 20
+      then "OK:" +++ hex_of_bytes [p] +++ ";" +++ hex_of_bytes h +++ ";" +++ s +++ ";" +++ hex_of_bytes h else "ERR"
   | _ => "ERR"
   end.
 
@@ -103,14 +117,13 @@ Definition run_to_wif (kb : bytes) (c : bool) : string :=
     end in
   let spec :=
     match spec_key_of_bytes kb with
-    | Some _ => "OK:" +++ b58check_encode sha256d_ref (x80 :: kb ++ (if c then [x01] else [])) +++ ";"
-                +++ hex_of_bytes kb +++ ";" +++ flag c
+    | Some _ => "OK:" +++ b58check_encode sha256d_ref (x80 :: kb ++ (if c then [x01] else [])) +++ ";" +++ spec_show_key kb c
     | None => "ERR"
     end in
   out3 impl spec "-".
 
 Definition spec_key (kb : bytes) : string :=
-  match spec_key_of_bytes kb with Some _ => "OK:" +++ hex_of_bytes kb +++ ";1" | None => "ERR" end.
+  match spec_key_of_bytes kb with Some _ => "OK:" +++ spec_show_key kb true | None => "ERR" end.
 
 Definition run_from_hex (t : bytes) : string :=
   let s := text_of t in
@@ -120,6 +133,9 @@ Definition run_from_hex (t : bytes) : string :=
 Definition run_from_bytes (kb : bytes) : string :=
   out3 (show_o show_key (priv_from_bytes kb)) (spec_key kb) "-".
 
+(* from_random: the driver reports four behavioural facts *)
+Definition run_key_random : string := out3 "OK:1;1;1;1" "OK:1;1;1;1" "-".
+
 (* one scalar multiplication per case, shared by both sides *)
 Definition curve_memo (P : point) : curve_impl :=
   {| ci_pubkey := fun _ => P; ci_decode := sec1_decode_fast; ci_lift := lift_x_fast |}.
@@ -128,8 +144,14 @@ Definition run_to_pub (kb : bytes) (c : bool) : string :=
   match priv_from_bytes kb with
   | Ok k0 =>
       let P := pubkey_fast (sk_scalar k0) in
-      out3 (show_o show_pub (to_public_key (curve_memo P) (compress_public_key k0 c)))
-           ("OK:" +++ hex_of_bytes (sec1_encode c P) +++ ";" +++ flag c) "-"
+      let k := compress_public_key k0 c in
+      let enc := sec1_encode c P in
+      out3 (match to_public_key (curve_memo P) k with
+            | Ok pk => "OK:" +++ show_pub pk
+                       +++ ";" +++ hex_of_bytes (pk_point (pub_from_private (curve_memo P) k))       (* get_point *)
+                       +++ ";" +++ show_pub (pub_from_private (curve_memo P) k)                       (* from_private_key *)
+            | Err => "ERR" | Panic => "PANIC" end)
+           ("OK:" +++ spec_show_pub enc c +++ ";" +++ hex_of_bytes enc +++ ";" +++ spec_show_pub enc c) "-"
   | Err => out3 "ERR" "ERR" "-"
   | Panic => out3 "PANIC" "ERR" "-"
   end.
@@ -154,24 +176,36 @@ Definition run_key_address (kb : bytes) (c : bool) (p : byte) : string :=
   | Panic => out3 "PANIC" "ERR" "-"
   end.
 
+Definition spec_pub_parse (bs : bytes) : string :=
+  match sec1_decode_fast bs with
+  | Some _ => "OK:" +++ spec_show_pub bs (Nat.eqb (length bs) 33)
+  | None => "ERR" end.
+
 Definition run_pub_parse (bs : bytes) : string :=
-  out3 (show_o show_pub (pub_from_bytes curve_fast bs))
-       (match sec1_decode_fast bs with
-        | Some _ => "OK:" +++ hex_of_bytes bs +++ ";" +++ flag (Nat.eqb (length bs) 33)
-        | None => "ERR" end) "-".
+  out3 (show_o show_pub (pub_from_bytes curve_fast bs)) (spec_pub_parse bs) "-".
+
+Definition run_pub_from_hex (t : bytes) : string :=
+  let s := text_of t in
+  out3 (show_o show_pub (pub_from_hex curve_fast s))
+       (match bytes_of_hex s with Some bs => spec_pub_parse bs | None => "ERR" end) "-".
 
 Definition run_pub_recode (compress : bool) (bs : bytes) : string :=
   out3 (show_o show_pub (do pk <- pub_from_bytes curve_fast bs;
                          if compress then pub_to_compressed pk else pub_to_decompressed curve_fast pk))
        (match sec1_decode_fast bs with
-        | Some P => "OK:" +++ hex_of_bytes (sec1_encode compress P) +++ ";" +++ flag compress
+        | Some P => "OK:" +++ spec_show_pub (sec1_encode compress P) compress
         | None => "ERR" end) "-".
 
+(* P2PKHAddress::from_pubkey and PublicKey::to_p2pkh_address are the same function: last field 1 *)
 Definition run_pub_address (bs : bytes) : string :=
-  out3 (show_o show_addr_checked (do pk <- pub_from_bytes curve_fast bs; pub_to_address pk))
+  out3 (show_o (fun a => show_addr_checked a +++ ";" +++
+                         match addr_from_pubkey {| pk_point := bs; pk_compressed := false |} with
+                         | Ok b => flag (bytes_eqb (a_hash a) (a_hash b) && bytes_eqb (a_checksum a) (a_checksum b)
+                                         && byte_eqb (a_prefix a) (a_prefix b))
+                         | _ => "E" end)
+               (do pk <- pub_from_bytes curve_fast bs; pub_to_address pk))
        (match sec1_decode_fast bs with
-        | Some _ => let h := hash160_ref bs in
-                    "OK:00;" +++ hex_of_bytes h +++ ";" +++ spec_addr_string x00 h
+        | Some _ => "OK:" +++ spec_show_addr x00 (hash160_ref bs) +++ ";1"
         | None => "ERR" end) "-".
 
 Definition sig_ok (der : bytes) (fl : byte) : bool :=
@@ -180,7 +214,7 @@ Definition sig_ok (der : bytes) (fl : byte) : bool :=
 Definition show_script (r : outcome (list bit)) : string := show_o (fun s => hex_of_bytes (to_bytes s)) r.
 
 Definition run_unlock_own (bs : bytes) (p : byte) (der : bytes) (fl : byte) : string :=
-  if negb (sig_ok der fl) then out3 "ERR" "-" "-" else
+  if negb (sig_ok der fl) then out3 "ERR" "ERR" "-" else
   let sg := der ++ [fl] in
   out3 (show_script (do pk <- pub_from_bytes curve_fast bs;
                      do a <- pub_to_address pk;
@@ -202,23 +236,33 @@ Definition run_addr_to_string (p : byte) (h : bytes) : string :=
 
 Definition run_addr_from_hash (h : bytes) : string :=
   out3 (show_o show_addr_checked (addr_from_pubkey_hash h))
-       (if Nat.eqb (length h) 20 then "OK:00;" +++ hex_of_bytes h +++ ";" +++ spec_addr_string x00 h else "ERR") "-".
+       (if Nat.eqb (length h) 20 then "OK:" +++ spec_show_addr x00 h else "ERR") "-".
 
 Definition run_addr_set_chain (t : bytes) (p : byte) : string :=
   let s := text_of t in
   out3 (show_o show_addr_checked (do a <- addr_from_string s; addr_set_chain a p))
        (match b58check_decode sha256d_ref s with
-        | Some (_ :: h) => if Nat.eqb (length h) 20
-                           then "OK:" +++ hex_of_bytes [p] +++ ";" +++ hex_of_bytes h +++ ";" +++ spec_addr_string p h
-                           else "ERR"
+        | Some (_ :: h) => if Nat.eqb (length h) 20 then "OK:" +++ spec_show_addr p h else "ERR"
         | _ => "ERR" end) "-".
+
+(* ChainParams::mainnet / default: p2pkh = 00; testnet, regtest, stn: 6f.  set_chain_params and the public
+   set_chain_params_impl are the same function: last field 1 *)
+Definition chain_byte (name : string) : option byte :=
+  match name with
+  | "mainnet" => Some x00 | "default" => Some x00
+  | "testnet" => Some x6f | "regtest" => Some x6f | "stn" => Some x6f
+  | _ => None
+  end.
+Definition run_chain_named (h : bytes) (p : byte) : string :=
+  out3 (show_o (fun a => show_addr_checked a +++ ";1") (make_addr p h))
+       (if Nat.eqb (length h) 20 then "OK:" +++ spec_show_addr p h +++ ";1" else "ERR") "-".
 
 Definition run_addr_locking (p : byte) (h : bytes) : string :=
   out3 (show_script (do a <- make_addr p h; addr_locking_script a))
        (if Nat.eqb (length h) 20 then "OK:" +++ hex_of_bytes (p2pkh_bytes h) else "ERR") "-".
 
 Definition run_addr_unlocking (p : byte) (h bs der : bytes) (fl : byte) : string :=
-  if negb (sig_ok der fl) then out3 "ERR" "-" "-" else
+  if negb (sig_ok der fl) then out3 "ERR" "ERR" "-" else
   let sg := der ++ [fl] in
   out3 (show_script (do a <- make_addr p h;
                      do pk <- pub_from_bytes curve_fast bs;
@@ -243,10 +287,12 @@ Definition run (op : string) (args : list string) : string :=
   | "key.from_bytes", [k] => match expand k with Some b => run_from_bytes b | None => "BADARG" end
   | "key.to_pub", [k; c] =>
       match expand k, arg_flag c with Some kb, Some cb => run_to_pub kb cb | _, _ => "BADARG" end
+  | "key.random", [] => run_key_random
   | "key.address", [k; c; p] =>
       match expand k, arg_flag c, arg_byte p with
       | Some kb, Some cb, Some pb => run_key_address kb cb pb | _, _, _ => "BADARG" end
   | "pub.parse", [b] => match expand b with Some bs => run_pub_parse bs | None => "BADARG" end
+  | "pub.from_hex", [t] => match expand t with Some b => run_pub_from_hex b | None => "BADARG" end
   | "pub.compress", [b] => match expand b with Some bs => run_pub_recode true bs | None => "BADARG" end
   | "pub.decompress", [b] => match expand b with Some bs => run_pub_recode false bs | None => "BADARG" end
   | "pub.address", [b] => match expand b with Some bs => run_pub_address bs | None => "BADARG" end
@@ -259,6 +305,8 @@ Definition run (op : string) (args : list string) : string :=
   | "addr.from_hash", [h] => match expand h with Some hb => run_addr_from_hash hb | None => "BADARG" end
   | "addr.set_chain", [t; p] =>
       match expand t, arg_byte p with Some tb, Some pb => run_addr_set_chain tb pb | _, _ => "BADARG" end
+  | "addr.chain_named", [h; name] =>
+      match expand h, chain_byte name with Some hb, Some pb => run_chain_named hb pb | _, _ => "BADARG" end
   | "addr.locking", [p; h] =>
       match arg_byte p, expand h with Some pb, Some hb => run_addr_locking pb hb | _, _ => "BADARG" end
   | "addr.unlocking", [p; h; b; d; f] =>
